@@ -62,10 +62,24 @@ Theorem C11_prefix_on_elements : forall path e,
 Proof. exact path_prefix_elements. Qed.
 Print Assumptions C11_prefix_on_elements.
 
-(* The executable property evaluated by the harness holds of the model on every well-formed input. *)
-Theorem C11_prop_of_model : forall i, dec_C11 i <> None -> prop_C11 i (run_C11 i) = true.
+(* Using the exported API directly (NewBasicRouteRuleTree + Insert per rule) on rules that pass the loader's checks
+   builds the same tree as the loader, so the headline theorem covers both ways of building a tree. *)
+Theorem C11_insert_all_checked : forall rules,
+  forallb check_rule rules = true -> insert_all rules = load_rules rules.
+Proof. exact insert_all_checked. Qed.
+Print Assumptions C11_insert_all_checked.
+
+(* CENTRAL THEOREM.  The executable property the harness evaluates on the implementation's observations holds of the
+   model on every well-formed input (mode 0 = through the loader, mode 1 = direct Insert; rule list; query list).
+   There is no known-finding class (kf_C11 = 0). *)
+Theorem C11_prop_of_model : forall i, wf_C11 i = true -> kf_C11 i = 0 -> prop_C11 i (run_C11 i) = true.
 Proof. exact prop_C11_of_model. Qed.
 Print Assumptions C11_prop_of_model.
+(* a corpus case (corpus/C11/doc.case, "wf-example": rule {*.a.com, /x*} -> C, lookups b.a.com /x/y) is well-formed *)
+Example C11_wf_example :
+  wf_C11 (VL [VZ 0; VL [VL [VL [VB [42;46;97;46;99;111;109]]; VL [VB [47;120;42]]; VB [67]]];
+              VL [VL [VB [98;46;97;46;99;111;109]; VB [47;120;47;121]]]]) = true.
+Proof. exact eq_refl. Qed.
 
 (* Tests (vm_compute): every row of the host and path tables of route.md and its two worked examples, through
    the loader and the tree; also non-vacuity of the theorems above (accepted rule sets, hits in all classes). *)
